@@ -26,6 +26,8 @@ def run(chk):
     a64common.rule_imm(chk, A)
     a64common.rule_validators(chk, A)
     a64common.rule_tables(chk, A)
+    from lib import relocrules
+    relocrules.bound_unbound(chk, [emit])
 
     return chk.finish(
         level="other",
